@@ -129,7 +129,7 @@ def one(sc, idx: int, seed: int, with_ref: bool):
             ct = tok.split(".")[3] if ser == "compact" else tok["ciphertext"]
             if len(ct) > 20000:
                 fails.append(("zip-not-applied", str(len(ct))))
-    if with_ref and not fails:
+    if with_ref:
         for j, (rj, _) in enumerate(recs):
             try:
                 _, p2 = R.jwe_decrypt(tok, rj, J.pub(sender) if sender else None, index=j if len(recs) > 1 else None)
@@ -201,6 +201,14 @@ def execute(ctx: Ctx, with_ref: bool, prop_filter=None) -> None:
 
 def run(ctx: Ctx) -> None:
     execute(ctx, with_ref=False, prop_filter=lambda w: not w.startswith("ref-"))
+    from . import c17
+    from .common import pmap
+    nd = 2048 if ctx.tier == "thorough" else 512
+    for bad, n in pmap(c17.diversity, [(i, nd // 16, ctx.seed) for i in range(0, nd, nd // 16)], chunksize=1):
+        ctx.evaluations += n
+        for i, ln, what in bad[:3]:
+            if what.startswith("round trip"):
+                ctx.violation("jwert:zip=DEF diverse large plaintext -> " + what.split(":")[0], {"index": i, "length": ln, "what": what})
     ctx.rule = ("every scenario of JweRoundTrip.tla: 21 alg x 8 enc x zip x 3 serializations x AAD x apu/apv x 8 plaintext classes x header placement for "
                 "one recipient, and 10 recipient mixes (incl. forbidden ones) x 3 enc x zip x AAD x plaintext class; quick = all mixes + a seeded fifth "
                 "of the single-recipient scenarios; ECDH keys rotate over six curves; distinct_nontrivial = distinct scenarios executed")
